@@ -234,6 +234,8 @@ def main():
                        'checkpoint header variants beyond the two the reader distinguishes, integer-valued times and g = 0 are outside']
     rep.bounds = {'levels': '1-3', 'boxes_per_level': '1-2', 'ghost': '1-3', 'species': 2}
     common.run_cases(rep, run_case, cases())
+    from harness import k_lemmas
+    k_lemmas.run_into(rep, ['k_ghost'])
     return rep.finish()
 
 
